@@ -16,6 +16,8 @@ CONSTANTS
   LockNames <- MC_LockNames
   CallerIds <- MC_CallerIds
   Files <- MC_Files
+  AliasGroups <- MC_AliasGroups
+  WithAlias = FALSE
   WithEdits = FALSE
   WithReload = TRUE
   Lookups = FALSE
